@@ -167,6 +167,8 @@ class TrimeshPolyhedron(Domain):
         if isinstance(points, Points):
             # the points can also contain parameters, only use the own coordinates
             points = points[:, list(self.space.keys())].as_tensor
+        if len(points) == 0:  # trimesh can not handle an empty set of points
+            return torch.zeros((0, 1), dtype=torch.bool)
         inside = self.mesh.contains(points).reshape(-1, 1)
         return torch.tensor(inside)
 
@@ -238,6 +240,8 @@ class TrimeshBoundary(BoundaryDomain):
     def _contains(self, points, params=Points.empty()):
         # the points can also contain parameters, only use the own coordinates
         points = points[:, list(self.space.keys())].as_tensor
+        if len(points) == 0:  # trimesh can not handle an empty set of points
+            return torch.zeros((0, 1), dtype=torch.bool)
         distance = trimesh.proximity.signed_distance(self.domain.mesh, points)
         abs_dist = torch.absolute(torch.tensor(distance))
         on_bound = abs_dist <= self.domain.tol
